@@ -142,3 +142,15 @@ Example C01_example :
      [EvService 0 4096 0; EvWriteComplete 0; EvUser 1 (x_pub 1) None; EvService 1 4096 0; EvReset 2]))
   = [[]; []; []; []; []; []; [(1, CompOk None)]; []; []; [(3, CompErr EClientClosed)]].
 Proof. vm_compute. reflexivity. Qed.
+
+(* ---- no operation is silently dropped: in every state reachable by any event history every operation still in the table is in one of the intake queues, is the current operation, awaits its write completion, or is pending in s_ppub / s_pnon (EngineProofs/WFTrack.v, an inductive invariant on top of the engine well-formedness invariant). One guarantee about submissions is needed and is stated: a submitted PUBLISH does not carry the duplicate flag (ok_submit; for the concrete engine: validate_outbound, the clients' submission-time check, accepts the packet). C01_drop_needs_valid_submission shows the guarantee is necessary: a run of the concrete engine in which a dup QoS 0 publish carrying a pending packet id (rejected by validate_outbound) ends up in no queue ---- *)
+From GM Require Import Codec.Framing Alias.Inbound Validate.Rules EngineProofs.WFDefs EngineProofs.WFTrack EngineProofs.WFProps EngineProofs.WFInstance EngineProofs.WFWitness.
+
+Theorem C01_no_silent_drop : forall (enc : Type) (enc_reset : version -> packet -> resolution -> outcome enc) (enc_call : enc -> N -> N -> outcome (bytes * enc)) (enc_done : enc -> bool) (dec : Type) (dec_init : dec) (dec_feed : version -> N -> dec -> bytes -> dec * list packet * outcome unit) (ores : Type) (ores_reset : ores -> N -> ores) (ores_resolve : ores -> option N -> bytes -> outcome (ores * resolution)) (ires : Type) (ires_reset : ires -> ires) (ires_resolve : ires -> option N -> bytes -> outcome (ires * bytes)) (v_out : option settings -> connect_opts -> resolution -> packet -> outcome unit) (v_in : option settings -> packet -> outcome unit) (cfg : config) (HC : comps_ok enc enc_reset enc_call dec dec_init dec_feed ores ores_reset ores_resolve ires ires_reset ires_resolve v_out v_in), ok_cfg cfg -> forall (o0 : ores) (i0 : ires) (h : list event), @ores_inv enc enc_reset enc_call dec dec_init dec_feed ores ores_reset ores_resolve ires ires_reset ires_resolve v_out v_in HC o0 -> @ires_inv enc enc_reset enc_call dec dec_init dec_feed ores ores_reset ores_resolve ires ires_reset ires_resolve v_out v_in HC i0 -> @Forall event ok_event h -> @Forall event ok_submit h -> forall (id : N) (op0 : op), @lookup op id (@s_ops enc dec ores ires (@fst (state enc dec ores ires) (list output) (run enc enc_reset enc_call enc_done dec dec_init dec_feed ores ores_reset ores_resolve ires ires_reset ires_resolve v_out v_in cfg (init enc dec dec_init ores ires o0 i0) h))) = @Some op op0 -> @In N id (@s_uq enc dec ores ires (@fst (state enc dec ores ires) (list output) (run enc enc_reset enc_call enc_done dec dec_init dec_feed ores ores_reset ores_resolve ires ires_reset ires_resolve v_out v_in cfg (init enc dec dec_init ores ires o0 i0) h))) \/ @In N id (@s_rq enc dec ores ires (@fst (state enc dec ores ires) (list output) (run enc enc_reset enc_call enc_done dec dec_init dec_feed ores ores_reset ores_resolve ires ires_reset ires_resolve v_out v_in cfg (init enc dec dec_init ores ires o0 i0) h))) \/ @In N id (@s_hq enc dec ores ires (@fst (state enc dec ores ires) (list output) (run enc enc_reset enc_call enc_done dec dec_init dec_feed ores ores_reset ores_resolve ires ires_reset ires_resolve v_out v_in cfg (init enc dec dec_init ores ires o0 i0) h))) \/ @s_cur enc dec ores ires (@fst (state enc dec ores ires) (list output) (run enc enc_reset enc_call enc_done dec dec_init dec_feed ores ores_reset ores_resolve ires ires_reset ires_resolve v_out v_in cfg (init enc dec dec_init ores ires o0 i0) h)) = @Some N id \/ @In N id (@s_pwco enc dec ores ires (@fst (state enc dec ores ires) (list output) (run enc enc_reset enc_call enc_done dec dec_init dec_feed ores ores_reset ores_resolve ires ires_reset ires_resolve v_out v_in cfg (init enc dec dec_init ores ires o0 i0) h))) \/ @In N id (@map (N * N) N (@snd N N) (@s_ppub enc dec ores ires (@fst (state enc dec ores ires) (list output) (run enc enc_reset enc_call enc_done dec dec_init dec_feed ores ores_reset ores_resolve ires ires_reset ires_resolve v_out v_in cfg (init enc dec dec_init ores ires o0 i0) h)))) \/ @In N id (@map (N * N) N (@snd N N) (@s_pnon enc dec ores ires (@fst (state enc dec ores ires) (list output) (run enc enc_reset enc_call enc_done dec dec_init dec_feed ores ores_reset ores_resolve ires ires_reset ires_resolve v_out v_in cfg (init enc dec dec_init ores ires o0 i0) h)))).
+Proof. exact @no_silent_drop. Qed.
+
+Theorem C01_instance_no_silent_drop : forall (cfg : config) (k : resolver_kind) (h : list event), ok_cfg cfg -> @Forall event ok_event h -> @Forall event valid_submission h -> forall (id : N) (op0 : op), @lookup op id (@s_ops enc decoder ores ires (@fst istate (list output) (i_run cfg (i_init cfg k) h))) = @Some op op0 -> @In N id (@s_uq enc decoder ores ires (@fst istate (list output) (i_run cfg (i_init cfg k) h))) \/ @In N id (@s_rq enc decoder ores ires (@fst istate (list output) (i_run cfg (i_init cfg k) h))) \/ @In N id (@s_hq enc decoder ores ires (@fst istate (list output) (i_run cfg (i_init cfg k) h))) \/ @s_cur enc decoder ores ires (@fst istate (list output) (i_run cfg (i_init cfg k) h)) = @Some N id \/ @In N id (@s_pwco enc decoder ores ires (@fst istate (list output) (i_run cfg (i_init cfg k) h))) \/ @In N id (@map (N * N) N (@snd N N) (@s_ppub enc decoder ores ires (@fst istate (list output) (i_run cfg (i_init cfg k) h)))) \/ @In N id (@map (N * N) N (@snd N N) (@s_pnon enc decoder ores ires (@fst istate (list output) (i_run cfg (i_init cfg k) h)))).
+Proof. exact @instance_no_silent_drop. Qed.
+
+Example C01_drop_needs_valid_submission : Forall ok_event w_hist_bad /\ validate_outbound w_bad_pub = Err EPacketValidationFailure /\ map o_res (snd (i_run w_cfg (i_init w_cfg RNull) w_hist_bad)) = repeat (Ok tt) 10 /\ map fst (s_ops w_state_bad) = [2; 3] /\ (s_uq w_state_bad, s_rq w_state_bad, s_hq w_state_bad, s_cur w_state_bad, s_pwco w_state_bad, s_ppub w_state_bad, s_pnon w_state_bad) = ([], [2], [], None, [], [], []).
+Proof. exact w_drop. Qed.
